@@ -4,7 +4,8 @@
     Vocabulary (Model/FullSync.v).  A history [h] is any list of events on one dataset:
     [EHttp start id end ents] (POST .../entities with the full-sync headers; id 0 = no
     sync-id header), [EJobStart n], [EJobBatch n ents], [EJobEnd n] (the sink calls of
-    fullsync job run n) and [EExpire] (a lease timer fires) - in any order, at any point.
+    fullsync job run n), [ETxn ents] (a write through Store.ExecuteTransaction / POST
+    /transactions) and [EExpire] (a lease timer fires) - in any order, at any point.
     [active_of h] is the sync that is alive after [h], read off the history alone: the most
     recent start that was not followed by another start (superseded), by [EExpire] (HTTP
     syncs; expired) or by its owner's end request (completed).  [completes (active_of h) e]
@@ -31,7 +32,8 @@ Proof. exact active_of_spec. Qed.
 Print Assumptions C09_active_is_last_unended_start.
 
 (** After any history, the end request of the active sync succeeds; everything written to
-    the dataset since that sync started (by anyone, the request's own entities included) has
+    the dataset since that sync started (by anyone and through any entry point - requests,
+    job batches, transactions - the request's own entities included) has
     the written content and flag; every other live entity becomes a deleted version of the
     same content; deleted and absent ones stay; the change feed grows by exactly one entry
     per tombstoned entity (ids are unique in the view). *)
@@ -66,8 +68,16 @@ Theorem C09_dead_job_end_rejected : forall h n,
 Proof. exact dead_job_end_rejected. Qed.
 Print Assumptions C09_dead_job_end_rejected.
 
-(** Usage envelope of the pinned tree: on histories in which, while a job's sync runs,
-    only that job's batches (and timer expiries) reach the dataset, the pinned tree and the
+(** In the repaired variant at most one lease timer is alive, and it is the timer of the
+    active sync: the timers of superseded, completed and expired syncs are dead whatever
+    their sync ids. *)
+Theorem C09_one_live_timer : forall h,
+  map fst (timers (final Fixed h)) = if lease (final Fixed h) then [sid (final Fixed h)] else [].
+Proof. exact one_live_timer. Qed.
+Print Assumptions C09_one_live_timer.
+
+(** Usage envelope of the pinned tree: on histories in which, while a job's sync runs, only
+    that job's batches, transaction writes (and timer expiries) reach the dataset, the pinned tree and the
     repaired variant coincide - so all of the above holds for the tree as it is. *)
 Theorem C09_current_ok_when_exclusive : forall h,
   job_exclusive None h = true -> run Current h init = run Fixed h init.
@@ -134,6 +144,14 @@ Example C09_nonvacuous_envelope :
   job_exclusive None [plain [E 1 1; E 2 1]; EJobStart 1; EJobBatch 1 [E 1 2]; EExpire; EJobEnd 1;
                       EHttp true 4 false [E 2 3]; EHttp false 5 false [E 9 9]; EExpire; EHttp false 4 true []] = true.
 Proof. vm_compute. reflexivity. Qed.
+
+(** a transaction write during a sync is a write since its start: entity 2 stays live *)
+Example C09_nonvacuous_txn :
+  let h := [plain [E 1 1; E 2 1; E 3 1]; EHttp true 1 false [E 1 2]; ETxn [E 2 5]] in
+  let e := EHttp false 1 true [] in
+  completes (active_of h) e = true
+  /\ d_view (dat (snd (step Fixed e (final Fixed h)))) = [(1, (2, false)); (2, (5, false)); (3, (1, true))].
+Proof. vm_compute. repeat split; reflexivity. Qed.
 
 (** the repaired variant on the four witness histories: nothing written during a sync is lost *)
 Example C09_fixed_on_witnesses :
